@@ -272,6 +272,9 @@ def run(ctx):
                          {"family": tag, "model": m, "residues": dump_residues(rs), "observe": "extract_base_interactions"},
                          "extract_base_interactions raised %s on a structure for which find_pairs reports %d base pair(s): "
                          "none of them is reported at this observation point" % (a[1], len(reals[k][1])))
+    # functional correspondence of the whole loop (three lists, in order) with Lean FindPairs.findPairs
+    from corr import c03_loop
+    c03_loop.run_loop(ctx, res, inputs)
     both = list(zip(inputs, reals))
     for (tag, rs, m), real in both[:3] + both[-3:]:
         res.sample({"family": tag, "residues": len(rs), "model": m,
@@ -332,6 +335,9 @@ def replay(ctx, data):
             replay(ctx, {"input": c["input"], "signature": c["signature"]})
         return
     inp = data["input"]
+    if str(inp.get("family", "")).startswith("loop:"):
+        from corr import c03_loop
+        return c03_loop.replay_loop(ctx, data)
     rs = load_residues(inp["residues"])
     model = inp.get("model")
     real, v, m = evaluate(ctx.driver, rs, model)
